@@ -96,6 +96,18 @@ Proof.
   intros. apply any_sort_is_isort; auto using str_ltb_asym, str_ltb_trans, str_total.
 Qed.
 
+Lemma sort_algorithm_irrelevant :
+  forall (keys s : list string), NoDup keys -> Permutation s keys ->
+    (StronglySorted (fun a c => tpl_before a c = true) s -> s = sort_templates keys) /\
+    (StronglySorted (fun a c => notes_before a c = true) s -> s = sort_notes_keys keys) /\
+    (StronglySorted (fun a c => str_ltb a c = true) s -> s = sort_strings keys).
+Proof.
+  intros keys s Hnd Hp. repeat split.
+  - now apply sort_templates_any_algorithm.
+  - now apply sort_notes_any_algorithm.
+  - now apply sort_strings_any_algorithm.
+Qed.
+
 Section Proofs.
   Variable tset : Type.
   Variable t0 : tset.
